@@ -103,8 +103,9 @@ def ws2dwcvp(y, nodata, p, llas, robust, out, lopt):
                 mad = np.median(np.abs(r_sel - np.median(r_sel)))
 
                 # more than half of the residuals coincide (constant, linear or
-                # mostly flat series): no robust scale, keep the current weights
-                if mad > 0:
+                # mostly flat series) up to rounding noise: no robust scale, keep
+                # the current weights
+                if mad > 1e-9 * max(1.0, np.abs(yv).max()):
                     u_arr = r_arr / (1.4826 * mad * np.sqrt(1 - gamma.sum() / n))
 
                     new_weights = (1 - (u_arr / 4.685) ** 2) ** 2
@@ -231,8 +232,9 @@ def _ws2dwcvp(y, w, p, llas, robust):
             mad = np.median(np.abs(r_sel - np.median(r_sel)))
 
             # more than half of the residuals coincide (constant, linear or
-            # mostly flat series): no robust scale, keep the current weights
-            if mad > 0:
+            # mostly flat series) up to rounding noise: no robust scale, keep
+            # the current weights
+            if mad > 1e-9 * max(1.0, np.abs(y * w).max()):
                 u_arr = r_arr / (1.4826 * mad * np.sqrt(1 - gamma.sum() / n))
 
                 new_weights = (1 - (u_arr / 4.685) ** 2) ** 2
